@@ -15,6 +15,7 @@ import (
 
 	jsonrpc "github.com/filecoin-project/go-jsonrpc"
 
+	"verif/harness/internal/c14"
 	"verif/harness/internal/corr"
 	"verif/harness/internal/fw"
 	"verif/harness/internal/hk"
@@ -200,6 +201,7 @@ func StaleAnswer(d *fw.Driver, res *fw.Result, seed int64, kind string, base int
 	res.Count("stale-answer." + kind)
 	res.Eval(true, []interface{}{"stale-answer", kind})
 	time.Sleep(20 * time.Millisecond) // the returning handlers log their last events
+	c14.CheckAnswers(res, e.PX.Frames(), sig)
 	return CheckEpoch(d, res, e.RT.Events(), sig)
 }
 
